@@ -2,6 +2,7 @@
 import glob
 import os
 import re
+from tiers import pick
 
 TRUSTED_BASE = [
     "Lean 4.33 kernel (leanchecker re-check in the thorough tier)",
@@ -58,11 +59,11 @@ def run_fw(pid, tier, seed, replay, ctx, gens, tags, mech=None, budget=None):
             rc, out = sh([ctx["HBIN"], "fw-replay", "--seed", str(seed)], input_bytes=open(c, "rb").read())
             texts.append(("corpus:" + os.path.basename(c), out))
         for kind, nq, nt in gens:
-            n = nq if tier == "quick" else nt
+            n = pick(tier, nq, nt)
             if kind.startswith("exh"):
                 # bounded-exhaustive family: exh:<depth>:<quick stride>:<thorough stride>
                 _, depth, sq, st = kind.split(":")
-                stride = sq if tier == "quick" else st
+                stride = st if tier == "thorough" else sq
                 rc, out = sh([ctx["HBIN"], "fw-exh", "--depth", depth, "--stride", stride, "--start", str(seed % int(stride)),
                               "--seed", str(seed), "--cases", str(n)], timeout=7200)
                 out = "\n".join(l for l in out.split("\n") if not l.startswith("exh depth="))
